@@ -1,35 +1,37 @@
-//! C14: token renewal.  The schedule is replayed on a REAL pair of `SecureChannel`s (client and
-//! server role, symmetric Sign or SignAndEncrypt): messages are chunked and secured with
-//! `apply_security` at the moments the transports do it, verified with
-//! `verify_and_remove_security`, and a renewal performs the calls that
-//! `SecureChannelService::open_secure_channel` (server) and
-//! `SecureChannelState::{begin,end}_issue_or_renew_secure_channel` (client) perform.
+//! C14: token renewal.  The schedule is replayed on a REAL client/server pair: the client side is a
+//! `SecureChannelState` over its `SecureChannel` and issues/renews through the real
+//! `begin_issue_or_renew_secure_channel` / `end_issue_or_renew_secure_channel` (hooks
+//! `verif_begin_issue_or_renew` / `verif_end_issue_or_renew`); the server side is a `SecureChannel`
+//! driven by the real `SecureChannelService::open_secure_channel` (Issue, then Renew).  Messages are
+//! chunked and secured with `apply_security` at the moments the transports do it and verified with
+//! `verify_and_remove_security`.  Forged frames are secured by a third party whose keys neither
+//! side ever derived (a token the receiver never issued).
 #[path = "../util.rs"]
 mod util;
 use util::*;
-use opcua::core::comms::{chunker::Chunker, secure_channel::{Role, SecureChannel}};
+use opcua::client::transport::state::SecureChannelState;
+use opcua::core::comms::{chunker::Chunker, secure_channel::{Role, SecureChannel}, security_header::{AsymmetricSecurityHeader, SecurityHeader}};
 use opcua::core::supported_message::SupportedMessage;
 use opcua::crypto::{CertificateStore, SecurityPolicy};
+use opcua::server::comms::secure_channel_service::SecureChannelService;
 use opcua::sync::RwLock;
 use opcua::types::*;
 use std::collections::VecDeque;
 use std::sync::Arc;
 
 #[derive(Clone, Copy, Debug, PartialEq)]
-pub enum Op { CSend, CRenew, SRecv, SWrite, CRecv }
+pub enum Op { CSend, CRenew, SRecv, SWrite, CRecv, CForge, SForge }
 pub struct Case { ops: Vec<Op>, mode: u8, policy: u8 }
 pub struct P;
 
-enum Frame { Msg(Vec<u8>), Opn(Vec<u8>) }      // Opn carries the nonce of its sender
-enum Resp { Msg, Opn }
+enum Frame { Msg(Vec<u8>), Opn(SupportedMessage), Bad(Vec<u8>) }
+enum Resp { Msg, Opn(SupportedMessage) }
 
 fn channel(role: Role, policy: SecurityPolicy, mode: MessageSecurityMode) -> SecureChannel {
     let store = Arc::new(RwLock::new(CertificateStore::new(std::path::Path::new("/tmp/verif-c14-pki"))));
     let mut c = SecureChannel::new(store, role, DecodingOptions::default());
     c.set_security_policy(policy);
     c.set_security_mode(mode);
-    c.set_secure_channel_id(1);
-    c.set_token_id(1);
     c
 }
 fn secure(ch: &SecureChannel, seq: u32, msg: &SupportedMessage) -> Vec<u8> {
@@ -39,63 +41,67 @@ fn secure(ch: &SecureChannel, seq: u32, msg: &SupportedMessage) -> Vec<u8> {
     dst.truncate(n);
     dst
 }
+/// a third party: same policy, mode, channel and token ids, but keys from nonces of its own
+fn rogue(role: Role, policy: SecurityPolicy, mode: MessageSecurityMode, like: &SecureChannel) -> SecureChannel {
+    let mut r = channel(role, policy, mode);
+    r.set_secure_channel_id(like.secure_channel_id());
+    r.set_token_id(like.token_id());
+    r.create_random_nonce();
+    let other = policy.random_nonce();
+    r.set_remote_nonce_from_byte_string(&other).unwrap();
+    r.derive_keys();
+    r
+}
 
 fn exec_ops(c: &Case) -> Vec<i128> {
     let policy = [SecurityPolicy::Basic256Sha256, SecurityPolicy::Basic128Rsa15, SecurityPolicy::Aes256Sha256RsaPss][c.policy as usize % 3];
     let mode = if c.mode == 0 { MessageSecurityMode::Sign } else { MessageSecurityMode::SignAndEncrypt };
-    let mut client = channel(Role::Client, policy, mode);
+    let client = Arc::new(RwLock::new(channel(Role::Client, policy, mode)));
+    let cstate = SecureChannelState::verif_new(client.clone());
     let mut server = channel(Role::Server, policy, mode);
-    // initial issue: nonces exchanged, keys derived on both sides
-    client.create_random_nonce();
-    server.create_random_nonce();
-    let (cn, sn) = (client.local_nonce().to_vec(), server.local_nonce().to_vec());
-    client.set_remote_nonce(&sn); server.set_remote_nonce(&cn);
-    client.derive_keys(); server.derive_keys();
+    let mut svc = SecureChannelService::new();
+    let hdr = SecurityHeader::Asymmetric(AsymmetricSecurityHeader::none());
+    // initial issue through the real code on both sides
+    let req = cstate.verif_begin_issue_or_renew(SecurityTokenRequestType::Issue);
+    let resp = svc.open_secure_channel(&mut server, &hdr, 0, &req).unwrap();
+    cstate.verif_end_issue_or_renew(resp).unwrap();
     let request: SupportedMessage = ReadRequest { request_header: RequestHeader::dummy(), max_age: 0.0, timestamps_to_return: TimestampsToReturn::Both, nodes_to_read: None }.into();
     let response: SupportedMessage = ReadResponse { response_header: ResponseHeader::null(), results: None, diagnostic_infos: None }.into();
     let (mut c2s, mut s2c, mut sq): (VecDeque<Frame>, VecDeque<Frame>, VecDeque<Resp>) = Default::default();
-    let (mut renewing, mut seq, mut token) = (false, 1u32, 1u32);
+    let (mut renewing, mut seq) = (false, 1u32);
     let mut out = Vec::new();
     for op in &c.ops {
         seq += 1;
         match op {
-            Op::CSend => { c2s.push_back(Frame::Msg(secure(&client, seq, &request))); out.push(4); }
+            Op::CSend => { c2s.push_back(Frame::Msg(secure(&client.read(), seq, &request))); out.push(4); }
+            Op::CForge => { let r = rogue(Role::Client, policy, mode, &client.read()); c2s.push_back(Frame::Bad(secure(&r, seq, &request))); out.push(4); }
+            Op::SForge => { let r = rogue(Role::Server, policy, mode, &server); s2c.push_back(Frame::Bad(secure(&r, seq, &response))); out.push(4); }
             Op::CRenew => {
                 if renewing { out.push(3); } else {
-                    // begin_issue_or_renew_secure_channel: a fresh client nonce goes into the request
-                    client.create_random_nonce();
-                    c2s.push_back(Frame::Opn(client.local_nonce().to_vec()));
+                    c2s.push_back(Frame::Opn(cstate.verif_begin_issue_or_renew(SecurityTokenRequestType::Renew)));
                     renewing = true; out.push(4);
                 }
             }
             Op::SRecv => match c2s.pop_front() {
                 None => out.push(3),
                 Some(Frame::Msg(b)) => match server.verify_and_remove_security(&b) { Ok(_) => { sq.push_back(Resp::Msg); out.push(1) } Err(_) => out.push(0) },
-                Some(Frame::Opn(nonce)) => {
-                    // open_secure_channel, request type Renew
-                    token += 1;
-                    server.set_token_id(token);
-                    server.set_remote_nonce_from_byte_string(&ByteString::from(&nonce)).unwrap();
-                    server.create_random_nonce();
-                    server.derive_keys();
-                    sq.push_back(Resp::Opn); out.push(2);
-                }
+                Some(Frame::Bad(b)) => match server.verify_and_remove_security(&b) { Ok(_) => out.push(6), Err(_) => out.push(5) },
+                Some(Frame::Opn(req)) => match svc.open_secure_channel(&mut server, &hdr, 0, &req) {
+                    Ok(r @ SupportedMessage::OpenSecureChannelResponse(_)) => { sq.push_back(Resp::Opn(r)); out.push(2); }
+                    Ok(r) => { sq.push_back(Resp::Opn(r)); out.push(7); }       // renewal refused (service fault)
+                    Err(_) => out.push(8),
+                },
             },
             Op::SWrite => match sq.pop_front() {
                 None => out.push(3),
                 Some(Resp::Msg) => { s2c.push_back(Frame::Msg(secure(&server, seq, &response))); out.push(4); }
-                Some(Resp::Opn) => { s2c.push_back(Frame::Opn(server.local_nonce().to_vec())); out.push(4); }
+                Some(Resp::Opn(r)) => { s2c.push_back(Frame::Opn(r)); out.push(4); }
             },
             Op::CRecv => match s2c.pop_front() {
                 None => out.push(3),
-                Some(Frame::Msg(b)) => match client.verify_and_remove_security(&b) { Ok(_) => out.push(1), Err(_) => out.push(0) },
-                Some(Frame::Opn(nonce)) => {
-                    // end_issue_or_renew_secure_channel
-                    client.set_security_token(ChannelSecurityToken { channel_id: 1, token_id: client.token_id() + 1, created_at: DateTime::now(), revised_lifetime: 60000 });
-                    client.set_remote_nonce_from_byte_string(&ByteString::from(&nonce)).unwrap();
-                    client.derive_keys();
-                    renewing = false; out.push(2);
-                }
+                Some(Frame::Msg(b)) => match client.write().verify_and_remove_security(&b) { Ok(_) => out.push(1), Err(_) => out.push(0) },
+                Some(Frame::Bad(b)) => match client.write().verify_and_remove_security(&b) { Ok(_) => out.push(6), Err(_) => out.push(5) },
+                Some(Frame::Opn(r)) => { renewing = false; match cstate.verif_end_issue_or_renew(r) { Ok(()) => out.push(2), Err(_) => out.push(7) } }
             },
         }
     }
@@ -104,9 +110,21 @@ fn exec_ops(c: &Case) -> Vec<i128> {
 
 impl Property for P {
     type Case = Case;
-    fn fixed(_tier: &str) -> Vec<Case> {
+    fn fixed(tier: &str) -> Vec<Case> {
         use Op::*;
         let mut v = Vec::new();
+        if tier == "thorough" {
+            // the quantifier of the property taken literally: EVERY schedule of up to 6 steps over the five
+            // protocol operations (contains both known schedules and every shorter prefix), on real channels
+            let base = [CSend, CRenew, SRecv, SWrite, CRecv];
+            for len in 1..=6u32 {
+                for mut code in 0..5u32.pow(len) {
+                    let mut ops = Vec::new();
+                    for _ in 0..len { ops.push(base[(code % 5) as usize]); code /= 5; }
+                    v.push(Case { ops, mode: (len % 2) as u8, policy: 0 });
+                }
+            }
+        }
         for (mode, policy) in [(0u8, 0u8), (1, 0), (0, 1), (1, 2)] {
             // quiescent renewal
             v.push(Case { ops: vec![CSend, SRecv, SWrite, CRecv, CRenew, SRecv, SWrite, CRecv, CSend, SRecv, SWrite, CRecv], mode, policy });
@@ -114,37 +132,65 @@ impl Property for P {
             v.push(Case { ops: vec![CRenew, CSend, SRecv, SRecv], mode, policy });
             // known class 2: a response queued before the switch and written after it
             v.push(Case { ops: vec![CSend, SRecv, CRenew, SRecv, SWrite, CRecv], mode, policy });
-            // two renewals, traffic only when quiet
-            v.push(Case { ops: vec![CRenew, SRecv, SWrite, CRecv, CSend, SRecv, SWrite, CRecv, CRenew, SRecv, SWrite, CRecv, CSend, SRecv, SWrite, CRecv], mode, policy });
+            // three renewals, traffic only when quiet
+            v.push(Case { ops: vec![CRenew, SRecv, SWrite, CRecv, CSend, SRecv, SWrite, CRecv, CRenew, SRecv, SWrite, CRecv, CSend, SRecv, SWrite, CRecv, CRenew, SRecv, SWrite, CRecv, CSend, SRecv, SWrite, CRecv], mode, policy });
+            // not quiescent and not racy: requests and responses in flight on both links around a renewal
+            v.push(Case { ops: vec![CSend, CSend, SRecv, SWrite, CSend, CRenew, SRecv, SRecv, SWrite, SWrite, SRecv, SWrite, CRecv, CRecv, CRecv, CRecv, CSend, SRecv, SWrite, CRecv], mode, policy });
+            // forged frames (keys of a token that was never issued) before, during and after a renewal, both directions
+            v.push(Case { ops: vec![CForge, SForge, SRecv, CRecv, CRenew, CForge, SRecv, SRecv, SForge, SWrite, CRecv, CRecv, CForge, SForge, SRecv, CRecv, CSend, SRecv, SWrite, CRecv], mode, policy });
         }
         v
     }
     fn gen(r: &mut Rng) -> Case {
         use Op::*;
-        let n = 3 + r.below(28);
-        // two generators: mostly-quiescent (renewals only when idle) and free interleavings
-        let quiet = r.chance(1, 2);
+        let n = 3 + r.below(34);
+        // three generators: quiescent (renewals only when idle), safe (any interleaving that avoids the
+        // two racy steps, simulated on the protocol state: deep pipelines around renewals), free
+        let kind = r.below(5);
         let mut ops = Vec::new();
-        let (mut infl, mut renew_out) = (0i32, false);
-        for _ in 0..n {
-            let o = *r.pick(&[CSend, CSend, SRecv, SRecv, SWrite, SWrite, CRecv, CRecv, CRenew]);
-            if quiet {
+        if kind < 2 {
+            let mut infl = 0i32;
+            for _ in 0..n {
+                let o = *r.pick(&[CSend, CSend, SRecv, SRecv, SWrite, SWrite, CRecv, CRecv, CRenew, CForge, SForge]);
                 match o {
-                    CRenew => { if infl == 0 && !renew_out { ops.extend([CRenew, SRecv, SWrite, CRecv]); } }
+                    CRenew => { if infl == 0 { ops.extend([CRenew, SRecv, SWrite, CRecv]); } }
                     CSend => { ops.push(CSend); infl += 1; }
-                    SRecv | SWrite => ops.push(o),
-                    CRecv => { ops.push(CRecv); }
+                    _ => ops.push(o),
                 }
                 if infl > 0 && r.chance(1, 2) { ops.extend([SRecv, SWrite, CRecv]); infl -= 1; }
-                let _ = renew_out; renew_out = false;
-            } else { ops.push(o); }
+            }
+        } else if kind < 4 {
+            // sq: true = renew response queued
+            let (mut renewing, mut c2s, mut sq, mut s2c): (bool, VecDeque<u8>, VecDeque<bool>, VecDeque<u8>) = Default::default();
+            for _ in 0..n {
+                loop {
+                    let o = *r.pick(&[CSend, CSend, CSend, SRecv, SRecv, SWrite, SWrite, CRecv, CRecv, CRenew, CRenew, CForge, SForge]);
+                    match o {
+                        CSend => { if renewing { continue; } c2s.push_back(0); }
+                        CForge => c2s.push_back(2),
+                        SForge => s2c.push_back(2),
+                        CRenew => { if renewing { continue; } renewing = true; c2s.push_back(1); }
+                        SRecv => match c2s.pop_front() { Some(0) => sq.push_back(false), Some(1) => sq.push_back(true), _ => {} },
+                        SWrite => {
+                            if sq.front() == Some(&false) && sq.iter().any(|x| *x) { continue; }
+                            match sq.pop_front() { Some(false) => s2c.push_back(0), Some(true) => s2c.push_back(1), None => {} }
+                        }
+                        CRecv => { if s2c.pop_front() == Some(1) { renewing = false; } }
+                    }
+                    ops.push(o);
+                    break;
+                }
+            }
+        } else {
+            for _ in 0..n { ops.push(*r.pick(&[CSend, CSend, SRecv, SRecv, SWrite, SWrite, CRecv, CRecv, CRenew, CForge, SForge])); }
         }
         Case { ops, mode: r.below(2) as u8, policy: r.below(3) as u8 }
     }
     fn exec(c: &Case) -> Out {
         let out = match guarded(|| exec_ops(c)) { Ok(o) => o, Err(_) => vec![-2] };
         let renewals = c.ops.iter().filter(|o| **o == Op::CRenew).count();
-        let tag = format!("{}-{}renew{}", if c.mode == 0 { "sign" } else { "encrypt" }, renewals.min(3), if out.contains(&0) { "-reject" } else { "" });
+        let forged = c.ops.iter().any(|o| matches!(o, Op::CForge | Op::SForge));
+        let tag = format!("{}-{}renew{}{}", if c.mode == 0 { "sign" } else { "encrypt" }, renewals.min(3), if forged { "-forged" } else { "" }, if out.contains(&0) { "-reject" } else { "" });
         let term = coq_list(&c.ops, |o| format!("{:?}", o));
         Out { tag, term, out }
     }
